@@ -220,6 +220,15 @@ def rule_c(ctx: Context, R: Reporter, F: Freshness):
         loops = at.loops if at is not None else ()
         R.check("C17.c", "one append per recorded quantity per commit", len(loops) == 1, fi, node,
                 msg=f"{fi.short}: the history append is nested in {len(loops)} loops (expected one loop over the keys)", key=f"append-once:{fi.short}")
+        # all-or-nothing: no exception can be raised once the first batch has been appended (a partially
+        # committed iteration leaves the recorded quantities with different numbers of batches)
+        if at is not None:
+            cfg = flow.cfg
+            raises = [nd for nd in cfg.stmt_nodes() if nd.kind == "stmt" and isinstance(nd.stmt, ast.Raise)]
+            late = [r for r in raises if cfg.reaches(at.id, r.id)]
+            R.check("C17.c", "the commit validates before it appends (no raise reachable after an append)", not late, fi, late[0].stmt if late else node,
+                    msg=f"{fi.short}: `{unparse(late[0].stmt)[:60] if late else ''}` can be reached after `{unparse(node)[:50]}` has already appended a batch: a rejected commit "
+                        f"leaves some quantities one batch longer than others (history no longer one batch per quantity per iteration)", key=f"append-atomic:{fi.short}")
     # the commit is called exactly once per iteration in the pipeline driver
     n_calls = 0
     for fi in ctx.prog.functions.values():
